@@ -15,8 +15,8 @@ type program struct {
 	Class string
 	// Pre is evaluated (plain Eval) before the cancelled evaluation.
 	Pre string
-	// InitTicks is the number of h.Tick calls made by package initialisation (global
-	// variable initialisers and init functions) before main starts.
+	// InitTicks > 0: the program has package initialisation (global variable initialisers
+	// and init functions) that ticks, and main announces its start with h.Tick(999).
 	InitTicks int
 	// ChanInLit: a function literal of the program blocks in a channel operation.
 	ChanInLit bool
@@ -74,6 +74,7 @@ func init() {
 	}
 }
 func main() {
+	h.Tick(999)
 	for i := 0; ; i++ {
 		h.Tick(20 + i)
 	}
